@@ -101,7 +101,43 @@ def _c06():
 	)
 
 
+UM_REAL_STUB = {
+	"real": ["fake_trx.Application / FakeTRX", "transceiver.Transceiver", "burst_fwd.BurstForwarder", "ctrl_if.CTRLInterface",
+		"ctrl_if_trx.CTRLInterfaceTRX", "data_if.DATAInterface", "udp_link.UDPLink", "clck_gen.CLCKGen", "fake_pm.FakePM",
+		"gsm_shared.HoppingParams / TrainingSeqGMSK", "data_msg.TxMsg / RxMsg", "trx_list.TRXList", "argparse wiring of --trx definitions"],
+	"stub": ["osmo-bts-trx / trxcon above the sockets (seeded L1 stub actors)", "signal handling", "log output (captured)"],
+	"simulated": ["both threads (socket thread, clock thread) under the seeded scheduler", "UDP sockets and select()", "monotonic clock / sleep",
+		"random.randint in the data path (seeded env stream)", "network faults on the L1->TRX direction: delay, reorder, duplication, loss"],
+}
+UM_ASSUME = [
+	"the reference model (engines/um_model.py, DESIGN.md Appendix A) and reference codec (sim/refcodec.py) are the trusted base",
+	"coarse schedules: a TRXC command or a clock tick is atomic (threads switch only at blocking calls); line-level interleavings are explored by C03's race profile only",
+	"undefined frequencies (never tuned), the status of known verbs with a wrong argument count, negative randomisation thresholds and odd trailing SETFH frequencies are don't-cares",
+	"datagrams from fake_trx towards L1 are never lost or reordered (only the L1->TRX direction is faulty)",
+]
+
+
+def _um(prop, what, runs_quick=1600):
+	from engines.um import ENGINE
+	return ENGINE, dict(
+		level="exploration", runs_quick=runs_quick, budget_quick_s=55,
+		rule="one run = one seeded plan (2..6 transceivers from generated --trx definitions, clock start frame / indication "
+			"period, TRXC commands, TRXD bursts relative to the running clock, idle periods, network faults) executed by the "
+			"real fake_trx.Application with both of its threads on the simulated network and clock; the recorded history is "
+			"replayed against the reference model in lock step (every command response, every tick's datagrams, clock "
+			"indications, stale reports). " + what + " distinct = distinct abstract traces (command verb/status, data "
+			"classification, per-tick emission counts); non-trivial = at least one obligation (response, emission or stale "
+			"report) discharged and at least one clock tick",
+		assumptions=UM_ASSUME, real_stub=UM_REAL_STUB)
+
+
 REGISTRY = {
+	"C02": lambda: _um("C02", "Profile C02: tuning/hopping heavy plans over a small frequency pool, bursts from every transceiver."),
+	"C03": lambda: _um("C03", "Profile C03: burst arrivals at any advance (-5..+25, far future, beyond the hyperframe), duplicates, power cycles, SETFORMAT changes."),
+	"C05": lambda: _um("C05", "Profile C05: command heavy plans over every verb, argument count and value range, foreign source ports, non-CMD datagrams, response delays."),
+	"C10": lambda: _um("C10", "Profile C10: metadata heavy plans (SETPOWER, SETTA, FAKE_TOA/RSSI/CI at the protocol boundaries), NB/SB/AB/FB/dummy/random/EDGE bursts."),
+	"C12": lambda: _um("C12", "Profile C12: power histories over parents and children, random port plans."),
+	"C18": lambda: _um("C18", "Profile C18: FAKE_DROP / RFMUTE interleaved with burst trains, v0 and v1 links."),
 	"C06": _c06,
 	"C08": _c08,
 	"C09": _c09,
